@@ -568,4 +568,530 @@ theorem readJson_typedef (d : Desc) (lg : Bool) (pk : Bytes → Option Json) (fu
   conv => lhs; unfold readJson
   simp [hd, ht, hf, hna]
 
+/-! ### decimal integer text parses back -/
+
+def AllLt10 (ds : List Nat) : Prop := ∀ d ∈ ds, d < 10
+
+theorem foldl_digits_init (ds : List Nat) : ∀ a, ds.foldl (fun a d => a * 10 + d) a = a * 10 ^ ds.length + ds.foldl (fun a d => a * 10 + d) 0 := by
+  induction ds with
+  | nil => intro a; simp
+  | cons d ds ih =>
+    intro a
+    simp only [List.foldl_cons, List.length_cons]
+    rw [ih (a * 10 + d), ih (0 * 10 + d)]
+    simp only [Nat.zero_mul, Nat.zero_add, Nat.pow_succ]
+    rw [Nat.add_mul, Nat.mul_assoc, Nat.mul_comm 10 (10 ^ ds.length)]
+    omega
+
+theorem digitsToNat_cons (d : Nat) (ds : List Nat) : digitsToNat (d :: ds) = d * 10 ^ ds.length + digitsToNat ds := by
+  unfold digitsToNat
+  simp only [List.foldl_cons]
+  rw [foldl_digits_init]
+  simp
+
+theorem digitsAux_spec : ∀ (fuel n : Nat) (acc : List Nat), n < fuel → AllLt10 acc →
+    AllLt10 (digitsAux fuel n acc) ∧ digitsToNat (digitsAux fuel n acc) = n * 10 ^ acc.length + digitsToNat acc := by
+  intro fuel
+  induction fuel with
+  | zero => intro n acc h; omega
+  | succ fuel ih =>
+    intro n acc h hacc
+    unfold digitsAux
+    by_cases hn : n < 10
+    · rw [if_pos hn]
+      refine ⟨?_, digitsToNat_cons n acc⟩
+      intro d hd
+      rcases List.mem_cons.mp hd with rfl | hd
+      · exact hn
+      · exact hacc d hd
+    · rw [if_neg hn]
+      have hlt : n / 10 < fuel := by omega
+      have hacc' : AllLt10 (n % 10 :: acc) := by
+        intro d hd
+        rcases List.mem_cons.mp hd with rfl | hd
+        · omega
+        · exact hacc d hd
+      obtain ⟨h1, h2⟩ := ih (n / 10) (n % 10 :: acc) hlt hacc'
+      refine ⟨h1, ?_⟩
+      rw [h2, digitsToNat_cons]
+      simp only [List.length_cons, Nat.pow_succ]
+      have := Nat.div_add_mod n 10
+      calc n / 10 * (10 ^ acc.length * 10) + (n % 10 * 10 ^ acc.length + digitsToNat acc)
+          = (10 * (n / 10) + n % 10) * 10 ^ acc.length + digitsToNat acc := by
+            rw [Nat.add_mul, Nat.mul_comm (10 ^ acc.length) 10, ← Nat.mul_assoc, Nat.mul_comm (n / 10) 10]; omega
+        _ = n * 10 ^ acc.length + digitsToNat acc := by rw [this]
+
+theorem digitsOf_spec (n : Nat) : AllLt10 (digitsOf n) ∧ digitsToNat (digitsOf n) = n := by
+  have := digitsAux_spec (n + 1) n [] (by omega) (by intro d hd; cases hd)
+  unfold digitsOf
+  refine ⟨this.1, ?_⟩
+  rw [this.2]
+  simp [digitsToNat]
+
+theorem dropZeros_spec (ds : List Nat) (h : AllLt10 ds) : AllLt10 (dropZeros ds) ∧ digitsToNat (dropZeros ds) = digitsToNat ds := by
+  induction ds with
+  | nil => exact ⟨h, rfl⟩
+  | cons d ds ih =>
+    have hd : d < 10 := h d (by simp)
+    have hds : AllLt10 ds := fun x hx => h x (by simp [hx])
+    unfold dropZeros
+    by_cases hz : (d % 10 == 0) = true
+    · rw [if_pos hz]
+      have hd0 : d = 0 := by
+        have : d % 10 = 0 := by simpa using hz
+        omega
+      obtain ⟨h1, h2⟩ := ih hds
+      refine ⟨h1, ?_⟩
+      rw [h2, digitsToNat_cons, hd0]
+      simp
+    · rw [if_neg hz]
+      exact ⟨h, rfl⟩
+
+theorem digitChar_val (d : Nat) (h : d < 10) : (digitChar d).toNat - 48 = d := by
+  have : d = 0 ∨ d = 1 ∨ d = 2 ∨ d = 3 ∨ d = 4 ∨ d = 5 ∨ d = 6 ∨ d = 7 ∨ d = 8 ∨ d = 9 := by omega
+  rcases this with rfl | rfl | rfl | rfl | rfl | rfl | rfl | rfl | rfl | rfl <;> rfl
+
+theorem digitsVal_map (ds : List Nat) (h : AllLt10 ds) : ∀ acc, digitsVal (ds.map digitChar) acc = some (ds.foldl (fun a d => a * 10 + d) acc) := by
+  induction ds with
+  | nil => intro acc; rfl
+  | cons d ds ih =>
+    intro acc
+    have hd : d < 10 := h d (by simp)
+    simp only [List.map_cons, digitsVal, isDigit_digitChar, if_true, List.foldl_cons]
+    rw [digitChar_val d hd]
+    exact ih (fun x hx => h x (by simp [hx])) _
+
+theorem parseDigits_intPartText (ds : List Nat) (h : AllLt10 ds) : parseDigits (intPartText ds) = some (digitsToNat ds) := by
+  obtain ⟨h1, h2⟩ := dropZeros_spec ds h
+  unfold intPartText
+  split
+  · rename_i he
+    rw [he] at h2
+    rw [← h2]
+    rfl
+  · rename_i ds' hne
+    cases hds : dropZeros ds with
+    | nil => exact absurd hds (by simpa using hne)
+    | cons d r =>
+      simp only [List.map_cons, parseDigits]
+      have := digitsVal_map (d :: r) (by rw [← hds]; exact h1) 0
+      simp only [List.map_cons] at this
+      rw [this, ← h2, hds]
+      rfl
+
+/-- decimal text of a natural number parses back to it -/
+theorem parseDigits_natText (n : Nat) : parseDigits (natText n) = some n := by
+  obtain ⟨h1, h2⟩ := digitsOf_spec n
+  unfold natText
+  rw [parseDigits_intPartText _ h1, h2]
+
+theorem natText_head_digit (n : Nat) : ∃ c cs, natText n = c :: cs ∧ isDigit c = true := by
+  have h := intPartText_isIntPart (digitsOf n)
+  unfold natText
+  generalize intPartText (digitsOf n) = t at h
+  cases h with
+  | zero => exact ⟨'0', [], rfl, by decide⟩
+  | nz c cs hc _ _ => exact ⟨c, cs, rfl, hc⟩
+
+/-- **unsigned integers round-trip through their JSON number text** -/
+theorem parseUintText_natText (bits n : Nat) (h : n < 2 ^ bits) : parseUintText bits (natText n) = some n := by
+  unfold parseUintText
+  rw [parseDigits_natText]
+  simp [h]
+
+/-- **signed integers (two's complement patterns) round-trip through their JSON number text** -/
+theorem parseIntText_intText (bits n : Nat) (hb : 0 < bits) (h : n < 2 ^ bits) : parseIntText bits (intText bits n) = some n := by
+  have hpow : 2 ^ bits = 2 * 2 ^ (bits - 1) := by
+    cases bits with
+    | zero => omega
+    | succ k => simp [Nat.pow_succ, Nat.mul_comm]
+  have hmod : n % 2 ^ bits = n := Nat.mod_eq_of_lt h
+  unfold intText
+  rw [hmod]
+  by_cases hs : n < 2 ^ (bits - 1)
+  · rw [if_pos hs]
+    obtain ⟨c, cs, hc, hd⟩ := natText_head_digit n
+    have hne1 : c ≠ '-' := by intro e; subst e; revert hd; decide
+    have hne2 : c ≠ '+' := by intro e; subst e; revert hd; decide
+    unfold parseIntText
+    rw [hc]
+    split
+    · rename_i heq; cases heq; exact absurd rfl hne1
+    · rename_i heq; cases heq; exact absurd rfl hne2
+    · rw [← hc, parseDigits_natText]
+      simp [hs]
+  · rw [if_neg hs]
+    unfold parseIntText
+    simp only [parseDigits_natText]
+    have hle : 2 ^ bits - n ≤ 2 ^ (bits - 1) := by omega
+    simp only [hle, if_true]
+    congr 1
+    have : 2 ^ bits - (2 ^ bits - n) = n := by omega
+    rw [this, hmod]
+
+/-! ### base64 -/
+
+theorem b64_facts : ∀ n, n < 64 → b64Val (b64Char n) = some n ∧ b64Char n ≠ 10 ∧ b64Char n ≠ 13 ∧ b64Char n ≠ 61 := by
+  decide
+
+theorem byteOf_toNat (a : UInt8) : byteOf a.toNat = a := by simp [byteOf]
+
+theorem base64_quads_roundtrip : ∀ s : Bytes, base64DecodeQuads (base64Encode s) = some s ∧ (∀ x ∈ base64Encode s, x ≠ 10 ∧ x ≠ 13) := by
+  intro s
+  induction s using base64Encode.induct with
+  | case1 a b c r ih =>
+    have ha := a.toNat_lt; have hb := b.toNat_lt; have hc := c.toNat_lt
+    simp only [base64Encode]
+    have f1 := b64_facts ((a.toNat * 65536 + b.toNat * 256 + c.toNat) / 262144) (by omega)
+    have f2 := b64_facts ((a.toNat * 65536 + b.toNat * 256 + c.toNat) / 4096 % 64) (by omega)
+    have f3 := b64_facts ((a.toNat * 65536 + b.toNat * 256 + c.toNat) / 64 % 64) (by omega)
+    have f4 := b64_facts ((a.toNat * 65536 + b.toNat * 256 + c.toNat) % 64) (by omega)
+    constructor
+    · simp only [base64DecodeQuads]
+      have h61 : (b64Char ((a.toNat * 65536 + b.toNat * 256 + c.toNat) % 64) == 61) = false := by simpa using f4.2.2.2
+      rw [h61]
+      simp only [Bool.false_eq_true, if_false, f1.1, f2.1, f3.1, f4.1, ih.1]
+      congr 1
+      have e1 : ((((a.toNat * 65536 + b.toNat * 256 + c.toNat) / 262144 * 64 + (a.toNat * 65536 + b.toNat * 256 + c.toNat) / 4096 % 64) * 64 + (a.toNat * 65536 + b.toNat * 256 + c.toNat) / 64 % 64) * 64 + (a.toNat * 65536 + b.toNat * 256 + c.toNat) % 64) = a.toNat * 65536 + b.toNat * 256 + c.toNat := by omega
+      rw [e1]
+      have e2 : (a.toNat * 65536 + b.toNat * 256 + c.toNat) / 65536 = a.toNat := by omega
+      have e3 : (a.toNat * 65536 + b.toNat * 256 + c.toNat) / 256 % 256 = b.toNat := by omega
+      have e4 : (a.toNat * 65536 + b.toNat * 256 + c.toNat) % 256 = c.toNat := by omega
+      rw [e2, e3, e4, byteOf_toNat, byteOf_toNat, byteOf_toNat]
+    · intro x hx
+      simp only [List.mem_cons] at hx
+      rcases hx with rfl | rfl | rfl | rfl | hx
+      · exact ⟨f1.2.1, f1.2.2.1⟩
+      · exact ⟨f2.2.1, f2.2.2.1⟩
+      · exact ⟨f3.2.1, f3.2.2.1⟩
+      · exact ⟨f4.2.1, f4.2.2.1⟩
+      · exact ih.2 x hx
+  | case2 a b =>
+    have ha := a.toNat_lt; have hb := b.toNat_lt
+    simp only [base64Encode]
+    have f1 := b64_facts ((a.toNat * 65536 + b.toNat * 256) / 262144) (by omega)
+    have f2 := b64_facts ((a.toNat * 65536 + b.toNat * 256) / 4096 % 64) (by omega)
+    have f3 := b64_facts ((a.toNat * 65536 + b.toNat * 256) / 64 % 64) (by omega)
+    constructor
+    · simp only [base64DecodeQuads]
+      have h61 : (b64Char ((a.toNat * 65536 + b.toNat * 256) / 64 % 64) == 61) = false := by simpa using f3.2.2.2
+      simp only [beq_self_eq_true, if_true, List.isEmpty_nil, Bool.not_true, Bool.false_eq_true, if_false, h61, f1.1, f2.1, f3.1]
+      congr 1
+      have e2 : (((a.toNat * 65536 + b.toNat * 256) / 262144 * 64 + (a.toNat * 65536 + b.toNat * 256) / 4096 % 64) * 64 + (a.toNat * 65536 + b.toNat * 256) / 64 % 64) / 1024 = a.toNat := by omega
+      have e3 : (((a.toNat * 65536 + b.toNat * 256) / 262144 * 64 + (a.toNat * 65536 + b.toNat * 256) / 4096 % 64) * 64 + (a.toNat * 65536 + b.toNat * 256) / 64 % 64) / 4 % 256 = b.toNat := by omega
+      rw [e2, e3, byteOf_toNat, byteOf_toNat]
+    · intro x hx
+      simp only [List.mem_cons, List.not_mem_nil, or_false] at hx
+      rcases hx with rfl | rfl | rfl | rfl
+      · exact ⟨f1.2.1, f1.2.2.1⟩
+      · exact ⟨f2.2.1, f2.2.2.1⟩
+      · exact ⟨f3.2.1, f3.2.2.1⟩
+      · decide
+  | case3 a =>
+    have ha := a.toNat_lt
+    simp only [base64Encode]
+    have f1 := b64_facts ((a.toNat * 65536) / 262144) (by omega)
+    have f2 := b64_facts ((a.toNat * 65536) / 4096 % 64) (by omega)
+    constructor
+    · simp only [base64DecodeQuads]
+      simp only [beq_self_eq_true, if_true, List.isEmpty_nil, Bool.not_true, Bool.false_eq_true, if_false, f1.1, f2.1]
+      congr 1
+      have e2 : ((a.toNat * 65536) / 262144 * 64 + (a.toNat * 65536) / 4096 % 64) / 16 = a.toNat := by omega
+      rw [e2, byteOf_toNat]
+    · intro x hx
+      simp only [List.mem_cons, List.not_mem_nil, or_false] at hx
+      rcases hx with rfl | rfl | rfl | rfl
+      · exact ⟨f1.2.1, f1.2.2.1⟩
+      · exact ⟨f2.2.1, f2.2.2.1⟩
+      · decide
+      · decide
+  | case4 => exact ⟨rfl, by intro x hx; cases hx⟩
+
+/-- **base64 round trip**: what the writer emits for a non-UTF-8 string decodes to the original bytes -/
+theorem base64_roundtrip (s : Bytes) : base64Decode (base64Encode s) = some s := by
+  obtain ⟨h1, h2⟩ := base64_quads_roundtrip s
+  unfold base64Decode
+  have : (base64Encode s).filter (fun b => b != 10 && b != 13) = base64Encode s := by
+    apply List.filter_eq_self.mpr
+    intro x hx
+    have := h2 x hx
+    simp [this.1, this.2]
+  rw [this, h1]
+
+/-! ### primitive round trips -/
+
+theorem readString_roundtrip (s : Bytes) : ∃ j, writePrimJ .str (.str s) = .ok j ∧ readPrimJ .str (some j) = .ok (.str s) := by
+  by_cases h : utf8Valid s = true
+  · exact ⟨.str s, by simp [writePrimJ, h], rfl⟩
+  · refine ⟨.obj [(kBase64, .str (base64Encode s))], by simp [writePrimJ, h], ?_⟩
+    simp only [readPrimJ, readStringJ]
+    simp [base64_roundtrip]
+
+theorem readUint_roundtrip (k : PrimK) (bits : Nat) (hk : (k = .u32 ∧ bits = 32) ∨ (k = .u64 ∧ bits = 64) ∨ (k = .byte ∧ bits = 8))
+    (n : Nat) (h : n < 2 ^ bits) : ∃ j, writePrimJ k (.nat n) = .ok j ∧ readPrimJ k (some j) = .ok (.nat n) := by
+  rcases hk with ⟨rfl, rfl⟩ | ⟨rfl, rfl⟩ | ⟨rfl, rfl⟩
+  · refine ⟨.num (natText (n % 2 ^ 32)), rfl, ?_⟩
+    simp only [readPrimJ, readIntJ, Nat.mod_eq_of_lt h]
+    rw [if_neg (by simp), parseUintText_natText 32 n h]
+  · refine ⟨.num (natText (n % 2 ^ 64)), rfl, ?_⟩
+    simp only [readPrimJ, readIntJ, Nat.mod_eq_of_lt h]
+    rw [if_neg (by simp), parseUintText_natText 64 n h]
+  · refine ⟨.num (natText (n % 256)), rfl, ?_⟩
+    have h' : n < 256 := h
+    simp only [readPrimJ, readIntJ, Nat.mod_eq_of_lt h']
+    rw [if_neg (by simp), parseUintText_natText 8 n h]
+
+theorem readInt_roundtrip (k : PrimK) (bits : Nat) (hk : (k = .i32 ∧ bits = 32) ∨ (k = .i64 ∧ bits = 64))
+    (n : Nat) (h : n < 2 ^ bits) : ∃ j, writePrimJ k (.nat n) = .ok j ∧ readPrimJ k (some j) = .ok (.nat n) := by
+  rcases hk with ⟨rfl, rfl⟩ | ⟨rfl, rfl⟩
+  · refine ⟨.num (intText 32 n), rfl, ?_⟩
+    simp only [readPrimJ, readIntJ]
+    rw [if_pos True.intro, parseIntText_intText 32 n (by omega) h]
+  · refine ⟨.num (intText 64 n), rfl, ?_⟩
+    simp only [readPrimJ, readIntJ]
+    rw [if_pos True.intro, parseIntText_intText 64 n (by omega) h]
+
+/-! ### struct congruence -/
+
+
+
+inductive ListRel {α β : Type} (R : α → β → Prop) : List α → List β → Prop
+  | nil : ListRel R [] []
+  | cons {a b as bs} : R a b → ListRel R as bs → ListRel R (a :: as) (b :: bs)
+
+/-- two members are interchangeable for field `f` under reader `rj` -/
+def MemRel (rj : Rj) (f : Field) (j j' : Option Json) : Prop :=
+  (f.isBit = true → j = j') ∧ j.isSome = j'.isSome ∧ ∀ na, rj f.ty na j = rj f.ty na j'
+
+def SlotRel (rj : Rj) (a b : Slot) : Prop :=
+  a.f = b.f ∧ a.presented = b.presented ∧ a.trueVal = b.trueVal ∧ (∀ na, rj a.f.ty na a.j = rj a.f.ty na b.j)
+
+def Pass1Rel (rj : Rj) : Except CErr (List Slot × List (Option Val)) → Except CErr (List Slot × List (Option Val)) → Prop
+  | .error e, .error e' => e = e'
+  | .ok (sl, v), .ok (sl', v') => v = v' ∧ ListRel (SlotRel rj) sl sl'
+  | _, _ => False
+
+theorem rsPass1_rel (d : Desc) (fuel : Nat) (rj : Rj) (s : StructD) (kvs kvs' : List (Bytes × Json)) :
+    ∀ fs : List Field, (∀ f ∈ fs, MemRel rj f (memberOf s f kvs) (memberOf s f kvs')) →
+      Pass1Rel rj (rsPass1 d fuel rj s kvs fs) (rsPass1 d fuel rj s kvs' fs) := by
+  intro fs
+  induction fs with
+  | nil => intro _; exact ⟨rfl, .nil⟩
+  | cons f fs ih =>
+    intro h
+    have hf := h f (by simp)
+    have ih' := ih (fun g hg => h g (by simp [hg]))
+    unfold rsPass1
+    cases h1 : rsPass1 d fuel rj s kvs fs with
+    | error e =>
+      cases h2 : rsPass1 d fuel rj s kvs' fs with
+      | error e' => rw [h1, h2] at ih'; exact ih'
+      | ok p => rw [h1, h2] at ih'; exact ih'.elim
+    | ok p =>
+      obtain ⟨slots, vals⟩ := p
+      cases h2 : rsPass1 d fuel rj s kvs' fs with
+      | error e' => rw [h1, h2] at ih'; exact ih'.elim
+      | ok p' =>
+        obtain ⟨slots', vals'⟩ := p'
+        rw [h1, h2] at ih'
+        obtain ⟨hv, hs⟩ := ih'
+        subst hv
+        obtain ⟨hbit, hsome, hrj⟩ := hf
+        simp only []
+        by_cases hb : f.isBit = true
+        · have := hbit hb
+          rw [← this]
+          simp only [hb, if_true]
+          cases hm : memberOf s f kvs with
+          | none => exact ⟨rfl, .cons ⟨rfl, rfl, rfl, fun _ => rfl⟩ hs⟩
+          | some jv =>
+            cases jv with
+            | bool b => exact ⟨rfl, .cons ⟨rfl, rfl, rfl, fun _ => rfl⟩ hs⟩
+            | null => rfl
+            | num t => rfl
+            | str t => rfl
+            | arr t => rfl
+            | obj t => rfl
+        · have hb' : f.isBit = false := by simpa using hb
+          simp only [hb', Bool.false_eq_true, if_false]
+          by_cases hn : f.natArgs.isEmpty = true
+          · simp only [hn, if_true]
+            cases hm : memberOf s f kvs with
+            | none =>
+              have hm' : memberOf s f kvs' = none := by
+                rw [hm] at hsome
+                cases hx : memberOf s f kvs' with
+                | none => rfl
+                | some _ => rw [hx] at hsome; simp at hsome
+              rw [hm']
+              simp only []
+              split
+              · exact ⟨rfl, .cons ⟨rfl, rfl, rfl, fun _ => rfl⟩ hs⟩
+              · cases zeroVal d fuel f.ty with
+                | error e => rfl
+                | ok z => exact ⟨rfl, .cons ⟨rfl, rfl, rfl, fun _ => rfl⟩ hs⟩
+            | some jv =>
+              cases hx : memberOf s f kvs' with
+              | none => rw [hm, hx] at hsome; simp at hsome
+              | some jv' =>
+                simp only []
+                have hr := hrj []
+                rw [hm, hx] at hr
+                rw [hr]
+                cases rj f.ty [] (some jv') with
+                | error e => rfl
+                | ok v => exact ⟨rfl, .cons ⟨rfl, rfl, rfl, fun na => by have := hrj na; rw [hm, hx] at this; exact this⟩ hs⟩
+          · have hn' : f.natArgs.isEmpty = false := by simpa using hn
+            simp only [hn', Bool.false_eq_true, if_false]
+            exact ⟨rfl, .cons ⟨rfl, hsome, rfl, hrj⟩ hs⟩
+
+theorem rsTl2Set_rel (rj : Rj) (params : List Nat) (vals : List (Option Val)) (sl sl' : List Slot) (h : ListRel (SlotRel rj) sl sl') :
+    rsTl2Set params vals sl = rsTl2Set params vals sl' := by
+  unfold rsTl2Set
+  induction h with
+  | nil => rfl
+  | cons hab _ ih =>
+    obtain ⟨hf, hp, ht, _⟩ := hab
+    simp only [List.map_cons, hf, hp, ht, ih]
+
+theorem rsProp_rel (rj : Rj) (s : StructD) (params : List Nat) (sl sl' : List Slot) (h : ListRel (SlotRel rj) sl sl') :
+    ∀ vals, rsProp s params sl vals = rsProp s params sl' vals := by
+  induction h with
+  | nil => intro vals; rfl
+  | @cons a b as bs hab _ ih =>
+    intro vals
+    obtain ⟨hf, hp, ht, _⟩ := hab
+    have e : rsProp s params as = rsProp s params bs := funext ih
+    simp only [rsProp, Slot.implies, hf, hp, ht, e]
+    rfl
+
+theorem rsBadFalse_rel (rj : Rj) (s : StructD) (params : List Nat) (vals : List (Option Val)) (sl sl' : List Slot)
+    (h : ListRel (SlotRel rj) sl sl') : rsBadFalse s params vals sl = rsBadFalse s params vals sl' := by
+  unfold rsBadFalse
+  congr 1
+  induction h with
+  | nil => rfl
+  | cons hab _ ih =>
+    obtain ⟨hf, hp, ht, _⟩ := hab
+    simp only [List.any_cons, hf, hp, ht, ih]
+
+theorem rsFin_rel (d : Desc) (fuel : Nat) (rj : Rj) (s : StructD) (params : List Nat) (vals1 : List (Option Val))
+    (sl sl' : List Slot) (h : ListRel (SlotRel rj) sl sl') :
+    ∀ ts vs, rsFin d fuel rj s params vals1 sl ts vs = rsFin d fuel rj s params vals1 sl' ts vs := by
+  induction h with
+  | nil => intro ts vs; rfl
+  | cons hab _ ih =>
+    intro ts vs
+    obtain ⟨hf, hp, ht, hr⟩ := hab
+    cases ts with
+    | nil => rfl
+    | cons t ts =>
+      cases vs with
+      | nil => rfl
+      | cons v vs =>
+        simp only [rsFin, ih ts vs, ← hf, hp]
+        cases rsFin d fuel rj s params vals1 _ ts vs with
+        | error e => rfl
+        | ok rest =>
+          simp only []
+          split
+          · rfl
+          · cases natArgVals vals1 params _ with
+            | none => rfl
+            | some na => simp only [hr na]
+
+/-- **struct congruence**: the struct reader sees its members only through the field readers -/
+theorem readStructJ_congr (d : Desc) (fuel : Nat) (rj : Rj) (s : StructD) (params : List Nat) (kvs kvs' : List (Bytes × Json))
+    (hk : keysOk s kvs = keysOk s kvs') (hm : ∀ f ∈ s.fields, MemRel rj f (memberOf s f kvs) (memberOf s f kvs')) :
+    readStructJ d fuel rj s params kvs = readStructJ d fuel rj s params kvs' := by
+  have hp := rsPass1_rel d fuel rj s kvs kvs' s.fields hm
+  unfold readStructJ
+  rw [hk]
+  split
+  · rfl
+  · cases h1 : rsPass1 d fuel rj s kvs s.fields with
+    | error e =>
+      cases h2 : rsPass1 d fuel rj s kvs' s.fields with
+      | error e' => rw [h1, h2] at hp; simp only [Pass1Rel] at hp; rw [hp]
+      | ok p => rw [h1, h2] at hp; exact hp.elim
+    | ok p =>
+      obtain ⟨slots, vals⟩ := p
+      cases h2 : rsPass1 d fuel rj s kvs' s.fields with
+      | error e' => rw [h1, h2] at hp; exact hp.elim
+      | ok p' =>
+        obtain ⟨slots', vals'⟩ := p'
+        rw [h1, h2] at hp
+        obtain ⟨hv, hs⟩ := hp
+        subst hv
+        simp only []
+        rw [rsProp_rel rj s params slots slots' hs vals]
+        cases rsProp s params slots' vals with
+        | error e => rfl
+        | ok vals1 =>
+          simp only []
+          rw [rsBadFalse_rel rj s params vals1 slots slots' hs, rsTl2Set_rel rj params vals slots slots' hs,
+              rsFin_rel d fuel rj s params vals1 slots slots' hs]
+
+
+/-! ### keys only -/
+
+def countK (k : Bytes) : List Bytes → Nat
+  | [] => 0
+  | x :: r => (if x == k then 1 else 0) + countK k r
+
+theorem countKey_eq (k : Bytes) (kvs : List (Bytes × Json)) : countKey k kvs = countK k (kvs.map Prod.fst) := by
+  induction kvs with
+  | nil => rfl
+  | cons h t ih => obtain ⟨x, j⟩ := h; simp only [countKey, List.map_cons, countK, ih]
+
+theorem keysOk_keys (s : StructD) (kvs kvs' : List (Bytes × Json)) (h : kvs.map Prod.fst = kvs'.map Prod.fst) :
+    keysOk s kvs = keysOk s kvs' := by
+  have e : ∀ l : List (Bytes × Json), keysOk s l = (l.map Prod.fst).all (fun k => (findField s k s.fields 0).isSome && countK k (l.map Prod.fst) == 1) := by
+    intro l
+    unfold keysOk
+    rw [List.all_map]
+    congr 1
+    funext kv
+    simp only [Function.comp, countKey_eq]
+  rw [e kvs, e kvs', h]
+
+theorem lookupKey_replace (key k : Bytes) (v v' : Json) (b : List (Bytes × Json)) :
+    ∀ a : List (Bytes × Json),
+      lookupKey key (a ++ (k, v) :: b) = lookupKey key (a ++ (k, v') :: b) ∨
+      (k = key ∧ lookupKey key (a ++ (k, v) :: b) = some v ∧ lookupKey key (a ++ (k, v') :: b) = some v') := by
+  intro a
+  induction a with
+  | nil =>
+    simp only [List.nil_append, lookupKey]
+    by_cases h : (k == key) = true
+    · right; simp only [h, if_true]; exact ⟨by simpa using h, trivial, trivial⟩
+    · left; simp [h]
+  | cons x xs ih =>
+    obtain ⟨xk, xj⟩ := x
+    simp only [List.cons_append, lookupKey]
+    by_cases h : (xk == key) = true
+    · left; simp only [h, if_true]
+    · simp only [h]; exact ih
+
+theorem memRel_refl (rj : Rj) (f : Field) (j : Option Json) : MemRel rj f j j := ⟨fun _ => rfl, rfl, fun _ => rfl⟩
+
+/-- replacing the value of one member by a value the field readers cannot tell apart does not change the result -/
+theorem readStructJ_member_congr (d : Desc) (fuel : Nat) (rj : Rj) (s : StructD) (params : List Nat)
+    (a b : List (Bytes × Json)) (k : Bytes) (v v' : Json)
+    (H : ∀ f ∈ s.fields, strBytes f.name = k → f.isBit = false ∧ ∀ na, rj f.ty na (some v) = rj f.ty na (some v')) :
+    readStructJ d fuel rj s params (a ++ (k, v) :: b) = readStructJ d fuel rj s params (a ++ (k, v') :: b) := by
+  apply readStructJ_congr
+  · exact keysOk_keys s _ _ (by simp)
+  · intro f hf
+    unfold memberOf
+    split
+    · exact memRel_refl rj f none
+    · rcases lookupKey_replace (strBytes f.name) k v v' b a with h | ⟨hk, h1, h2⟩
+      · rw [h]; exact memRel_refl rj f _
+      · rw [h1, h2]
+        obtain ⟨hb, hr⟩ := H f hf hk.symm
+        refine ⟨fun hbit => ?_, rfl, hr⟩
+        rw [hb] at hbit
+        exact absurd hbit (by simp)
+
 end TLVerif.Codec
